@@ -585,11 +585,15 @@ class World:
         if enc.startswith("arg:"):
             kw["fmt"] = enc[4:]
         fp = io.StringIO()
+        self.nwrites = getattr(self, "nwrites", 0) + 1
         try:
-            ccsds.dump(obj, fp, **kw)
+            if self.nwrites % 2:
+                ccsds.dump(obj, fp, **kw)  # to a file object
+                text = fp.getvalue()
+            else:
+                text = ccsds.dumps(obj, **kw)  # to a string
         except Exception as e:  # noqa
             return None, e
-        text = fp.getvalue()
         self.disk.write(path, text)
         return text, None
 
@@ -603,8 +607,9 @@ class World:
             except Exception:  # noqa
                 pass
         fp = io.StringIO(self.disk.read(path))
+        self.nreads = getattr(self, "nreads", 0) + 1
         try:
-            return ccsds.load(fp), None
+            return (ccsds.load(fp) if self.nreads % 2 else ccsds.loads(self.disk.read(path))), None
         except Exception as e:  # noqa
             return None, e
 
